@@ -299,16 +299,35 @@ def audit(props_mods: Sequence[str], prop: str) -> Tuple[Dict[str, List[str]], L
             problems.append(f'theorem {m.group(1)} depends on disallowed axioms {extra}')
     if p.returncode != 0:
         problems.append('audit file failed to elaborate: ' + p.stdout[-800:])
-    # forbidden tokens anywhere in the library (comments stripped)
-    for root, _dirs, files in os.walk(os.path.join(LEAN_DIR, 'AsyncsshModel')):
-        for fn in files:
-            if fn.endswith('.lean'):
-                fp = os.path.join(root, fn)
-                src = strip_lean_comments(open(fp).read())
-                m = FORBIDDEN_TOKENS.search(src)
-                if m:
-                    problems.append(f'forbidden token {m.group(0).strip()!r} in {os.path.relpath(fp, LEAN_DIR)}')
+    # forbidden tokens anywhere in the import closure of the property's modules (comments stripped)
+    for mod in import_closure(props_mods):
+        fp = module_path(mod)
+        try:
+            src = strip_lean_comments(open(fp).read())
+        except FileNotFoundError:
+            continue
+        m = FORBIDDEN_TOKENS.search(src)
+        if m:
+            problems.append(f'forbidden token {m.group(0).strip()!r} in {os.path.relpath(fp, LEAN_DIR)}')
     return axioms, problems
+
+
+def import_closure(mods: Sequence[str]) -> List[str]:
+    """All AsyncsshModel.* modules reachable through `import` lines from the given modules."""
+    seen: List[str] = []
+    todo = list(mods)
+    while todo:
+        m = todo.pop()
+        if m in seen:
+            continue
+        seen.append(m)
+        try:
+            src = open(module_path(m)).read()
+        except FileNotFoundError:
+            continue
+        for im in re.findall(r'^import\s+(AsyncsshModel\.[\w.]+)', src, re.M):
+            todo.append(im)
+    return seen
 
 
 def run_driver(driver: str, lines: Sequence[str], timeout: int = 600) -> List[str]:
